@@ -9,10 +9,11 @@ missing from the second entry is silently taken from the first one.
 
 Shape decided (AST nesting, every library function): local array A of pointers; S = innermost loop that contains a
 store `A[..] = ..`; an enclosing loop L of S in which A is also read *outside* S (consumed per iteration of L).
-Then a clear of A (memset(A, 0, ..)) must lie inside L and outside S.  A table that is filled and tested inside one
+Then a clear of A (memset(A, 0, ..), or stores of NULL) must lie inside L and outside S.  A table that is filled and tested inside one
 loop only (duplicate detection while accumulating) is not of this shape and is not judged.
 """
 from ..core import Finding, RuleResult
+from ..util import is_null
 
 PROPS = ("C09", "C07")
 LOOPS = ("ForStmt", "WhileStmt", "DoStmt")
@@ -44,7 +45,10 @@ def run(P, tier="quick"):
                     while par is not None and par.k in ("ParenExpr",):
                         par = par.parent
                     if par is not None and par.k == "BinaryOperator" and par.op == "=" and par.kids[0].strip() is m:
-                        stores.append(m)
+                        if is_null(par.kids[1].strip()) or par.kids[1].strip().cv == 0:
+                            clears.append(m)        # `for (..) table[i] = NULL;` clears like memset does
+                        else:
+                            stores.append(m)
                     else:
                         reads.append(m)
                 elif m.k == "CallExpr" and m.callee == "memset" and m.args() and m.args()[0].strip().k == "DeclRefExpr" and \
